@@ -109,8 +109,8 @@ func (m *C04) OnBlock(e *Env, blk *world.BlockRecord) {
 			}
 		case dm.Round == 2:
 			mg.R2[uint64(dm.R2.MemberID)] = dm.R2
-			if dm.Kind == "r2_wrong_count" {
-				e.Fail("C04", "invalid_round2_accepted", dm.Kind, "group %d: round-2 message with a wrong number of shares was accepted", mg.ID)
+			if dm.Kind == "r2_wrong_count" || dm.Kind == "r2_short_share" {
+				e.Fail("C04", "invalid_round2_accepted", dm.Kind, "group %d: malformed round-2 message (%s) was accepted", mg.ID, dm.Kind)
 				return
 			}
 			if dm.Kind == "r2_corrupt_share" || dm.Kind == "r2_share_for_other" || dm.Kind == "r2_share_out_of_range" {
